@@ -52,7 +52,7 @@ def _int_raises(argtypes):
         return []
     if a.startswith(_SAFE_INT_ARGS) or ".IntEnum" in a:
         return []
-    if a in ("builtins.float", "float"):
+    if a in ("builtins.float", "float", "decimal.Decimal"):
         return [VE, OFE]  # int(nan) / int(inf)
     # Literal enum members of IntEnum types print as Literal[...]; str / Any / unknown:
     return [VE] if a in ("builtins.str", "str") else [VE, TE]
@@ -97,6 +97,7 @@ SUMMARIES: dict[str, Summary] = {
     # ---- builtins
     "builtins.int": Summary(_int_raises, "language: int(str) ValueError; int(int|bool|IntEnum) total"),
     "builtins.float": Summary(_float_raises, "language: float(str) ValueError"),
+    "decimal.Decimal": Summary(lambda argtypes: ["decimal.InvalidOperation"] if _num_arg(argtypes) in ("builtins.str", "str") else [] if _num_arg(argtypes) in ("builtins.int", "int", "builtins.float", "float", "decimal.Decimal", None) else ["decimal.InvalidOperation", TE, VE], "stdlib: Decimal(str) raises InvalidOperation (an ArithmeticError) for malformed text under the default context; Decimal(int|float) total"),
     "builtins.round": Summary(_round_raises, "language: round(nan) ValueError, round(inf) OverflowError"),
     "builtins.str": Summary(NONE, "str() of int/str/enum/exception: total (A3)"),
     "builtins.bool": Summary(NONE, "total"),
@@ -368,6 +369,7 @@ FALLBACK_MRO = {
     "builtins.RecursionError": ["builtins.RecursionError", "builtins.RuntimeError", "builtins.Exception", "builtins.BaseException", "builtins.object"],
     "builtins.UnicodeDecodeError": ["builtins.UnicodeDecodeError", "builtins.UnicodeError", "builtins.ValueError", "builtins.Exception", "builtins.BaseException", "builtins.object"],
     "builtins.OverflowError": ["builtins.OverflowError", "builtins.ArithmeticError", "builtins.Exception", "builtins.BaseException", "builtins.object"],
+    "decimal.InvalidOperation": ["decimal.InvalidOperation", "decimal.DecimalException", "builtins.ArithmeticError", "builtins.Exception", "builtins.BaseException", "builtins.object"],
     "builtins.StopIteration": ["builtins.StopIteration", "builtins.Exception", "builtins.BaseException", "builtins.object"],
     "builtins.TimeoutError": ["builtins.TimeoutError", "builtins.OSError", "builtins.Exception", "builtins.BaseException", "builtins.object"],
     "builtins.ZeroDivisionError": ["builtins.ZeroDivisionError", "builtins.ArithmeticError", "builtins.Exception", "builtins.BaseException", "builtins.object"],
